@@ -34,6 +34,19 @@ INT_KINDS = ["int", "int8", "int16", "int32", "int64", "uint", "uint8", "uint16"
 ENUM_BASES = ["string", "string", "string", "int", "int8", "int64", "uint8", "uint32", "float64", "float32", "bool"]
 PRIMS = ["string", "int", "int64", "uint32", "bool", "float64", "float32", "int8", "uint", "any"]
 ANN = {"path": "Path", "query": "Query", "header": "Header", "form": "FormField", "body": "Body"}
+# Identifiers a project may well give to its OWN types although the emitters give a meaning to the same (or a
+# similar) bare name: the type string of a usage is the bare identifier of the declared type (pointers and the
+# package are dropped), and swagtool.ToOpenApiType / IsGenericObject dispatch on that string alone.  A declared
+# type is documented by a reference to its component whatever it is called.
+SHADOW_NAMES = ["Duration", "Int", "String", "Any", "Error", "Bytes", "Object", "Bool", "Number", "Integer",
+                "Date", "Context", "Array", "Map", "Float64", "Interface", "Uuid", "Binary", "File", "Null",
+                "Month", "Byte", "Int64", "Uint8", "Decimal", "Timestamp", "DateTime", "Email", "Url"]
+# at HEAD a declared type called Time IS taken for time.Time at every usage (reported; see c07.py CLS_TIME)
+SHADOW_TIME = "Time"
+
+
+def exported_name(name):
+    return name[:1].isupper()
 
 
 # ------------------------------------------------------------------ texpr helpers
@@ -235,11 +248,21 @@ def dive_tag(rng, e):
 def gen_struct(rng, pkg, name, later, enums, aliases, opts):
     nf = rng.randint(0, 6)
     fields = []
+    # a type with a lower-case name can only be named inside its own package
+    later = [d for d in later if d["pkg"] == pkg or exported_name(d["name"])]
     emb_pool = [d for d in later if d["kind"] == "struct"]
     if emb_pool and rng.random() < 0.35:
         for d in rng.sample(emb_pool, min(len(emb_pool), rng.choice([1, 1, 2]))):
             t = named(d["pkg"], d["name"])
             if rng.random() < 0.3:
+                t = ["ptr", t]
+            fields.append({"name": d["name"], "embedded": True, "json": None, "validate": "", "type": t})
+    # the package-private mixin: `type Parcel struct { tracking; *audit; ... }` - encoding/json promotes the
+    # exported fields of an embedded struct whose TYPE name is unexported like those of any other
+    for d in [x for x in emb_pool if not exported_name(x["name"])]:
+        if not any(f["name"] == d["name"] for f in fields) and rng.random() < opts.get("embed_unexported", 0.6):
+            t = named(d["pkg"], d["name"])
+            if rng.random() < 0.4:
                 t = ["ptr", t]
             fields.append({"name": d["name"], "embedded": True, "json": None, "validate": "", "type": t})
     own = {"pkg": pkg, "name": name}
@@ -293,6 +316,7 @@ def gen_path(rng, nparams):
 
 def gen_route(rng, idx, u, usable, opts):
     """usable: declarations that may be used directly by routes."""
+    usable = [d for d in usable if exported_name(d["name"])]
     structs = [d for d in usable if d["kind"] == "struct"]
     enums = [d for d in usable if d["kind"] == "enum"]
     aliases = [d for d in usable if d["kind"] == "alias"]
@@ -389,11 +413,24 @@ def gen_universe(rng, opts=None):
         structs = []
         names = ["%sSt%d" % (tagp, i) for i in range(nstruct)]
         rng.shuffle(names)          # alphabetical order must not follow the dependency order
+        if names and opts.get("unexported_structs") and rng.random() < opts["unexported_structs"]:
+            # one or two struct types of the package have lower-case names; they come first so that the
+            # other structs of the package can embed / use them
+            for i in range(min(len(names), rng.choice([1, 1, 2]))):
+                names[i] = "%smix%d" % (tagp.lower(), i)
         for name in names:
             later = structs + [d for d in decls if d["kind"] == "struct"]
             structs.append(gen_struct(rng, pkg, name, later, visible_enums, visible_aliases, opts))
         decls += enums + aliases + structs
     rng.shuffle(decls)
+    if opts.get("shadow_names") and rng.random() < opts["shadow_names"]:
+        # one or two declarations (struct, enum or alias) are called like something the emitters know
+        pool = [d for d in decls if exported_name(d["name"])]
+        w = {"decls": decls, "ctrls": []}
+        for d, new in zip(rng.sample(pool, min(len(pool), rng.choice([1, 1, 2]))),
+                          rng.sample(SHADOW_NAMES + ([SHADOW_TIME] if opts.get("shadow_time") else []), 2)):
+            w = rename_type(w, (d["pkg"], d["name"]), new)
+        decls = w["decls"]
     nctl = rng.choice([1, 1, 2])
     ctrls = []
     idx = 0
@@ -1133,7 +1170,7 @@ def shape_errors(spec):
 
 # ------------------------------------------------------------------ shrinking
 
-def shrink_universe(u, pred, budget=40):
+def shrink_universe(u, pred, budget=60):
     """Greedy structural shrinking while pred(u) stays true (pred runs the real CLI)."""
     cur = copy.deepcopy(u)
     calls = [0]
@@ -1149,6 +1186,47 @@ def shrink_universe(u, pred, budget=40):
 
     def used(c):
         return set(py_reach(c))
+
+    def halves(n):
+        """Index sets to try removing from a list of n items: halves, quarters, ... (more than one item each)."""
+        size = n // 2
+        while size >= 2:
+            for lo in range(0, n, size):
+                yield set(range(lo, min(n, lo + size)))
+            size //= 2
+
+    # big inputs first lose routes and fields in chunks
+    progress = True
+    while progress and calls[0] < budget // 2:
+        progress = False
+        flat = [(ci, ri) for ci, c in enumerate(cur["ctrls"]) for ri in range(len(c["routes"]))]
+        for drop in halves(len(flat)):
+            gone = set(flat[i] for i in drop)
+            cand = copy.deepcopy(cur)
+            for ci, c in enumerate(cand["ctrls"]):
+                c["routes"] = [r for ri, r in enumerate(c["routes"]) if (ci, ri) not in gone]
+            cand["ctrls"] = [x for x in cand["ctrls"] if x["routes"]]
+            if cand["ctrls"] and ok(cand):
+                cur, progress = cand, True
+                break
+        if progress:
+            continue
+        reach = used(cur)
+        cand = copy.deepcopy(cur)
+        cand["decls"] = [d for d in cand["decls"] if (d["pkg"], d["name"]) in reach]
+        if len(cand["decls"]) < len(cur["decls"]) and ok(cand):
+            cur = cand
+        for di, d in enumerate(cur["decls"]):
+            if d["kind"] != "struct" or len(d["fields"]) < 6:
+                continue
+            for drop in halves(len(d["fields"])):
+                cand = copy.deepcopy(cur)
+                cand["decls"][di]["fields"] = [f for fi, f in enumerate(d["fields"]) if fi not in drop]
+                if ok(cand):
+                    cur, progress = cand, True
+                    break
+            if progress:
+                break
 
     changed = True
     while changed and calls[0] < budget:
